@@ -5,6 +5,7 @@ from framework import CaseResult, text_points, points_text
 from props.tapecommon import (CaseDir, TAPE, encoded_size, gen_content, gen_source_path, materialize, model_outcome,
                               real_path_of, run_tool, status_class)
 
+GEN_FILES = ["GenTape"]
 RULE = ("ordered lists of 0..12 sources with pairwise distinct 8.3 ASCII catalogue names (any case, with/without extension, "
         "with/without ',a', reached through plain, dotted, './' and '..' directories), contents boundary-first "
         "(0,1,253..257,507..510, k*254+-1) and adversarial (payloads imitating 01 01 01 3C 5A, whole fake blocks, FF, checksum-wrap sums), "
@@ -29,7 +30,7 @@ def gen_case(rng, fit=True):
                 break
         total += size
         srcs.append({"arg": gen_source_path(rng, used), "content": spec})
-    arch = rng.choice(["t.k7", "t.k7", "out/t.k7", "./t.k7", "ABS/t.k7", "o.d/x.K7", "noext"])
+    arch = rng.choice(["t.k7", "t.k7", "o+/t.k7", "./t.k7", "ABS/t.k7", "o+.d/x.K7", "noext"])
     return {"sources": srcs, "verbose": rng.random() < 0.4, "archive": arch}
 
 
